@@ -72,12 +72,14 @@ def run(ctx):
         raise AnalysisError('ProgramUnit.make_complete: REGEX incremental branch not found')
     blk = regex_if[0]
     inner = [n for n in blk.body if isinstance(n, ast.If)]
-    joins = [n for n in blk.body if isinstance(n, ast.Assign) and ast.unparse(n.targets[0]) == 'parser_classes']
+    # the local holding the requested classes (taken from frontend_args)
+    pcn = (X.names_assigned_from(mc.node, 'frontend_args.get(', 'parser_classes') or ['parser_classes'])[0]
+    joins = [n for n in blk.body if isinstance(n, ast.Assign) and ast.unparse(n.targets[0]) == pcn]
     if len(inner) == 1 and not joins:
         ctx.violation('R1', 'ProgramUnit.make_complete:join', f'{mc.module.relpath}:{blk.lineno}',
                       'the classes used for a REGEX re-parse are not joined with the already parsed ones: a later narrower request '
                       'drops what an earlier request discovered')
-        joins = [ast.parse('parser_classes = parser_classes').body[0]]
+        joins = [ast.parse(f'{pcn} = {pcn}').body[0]]
         joins[0].lineno = inner[0].lineno + 1
     if len(inner) != 1 or len(joins) != 1 or not any(isinstance(s, ast.Return) for s in inner[0].body):
         raise AnalysisError('ProgramUnit.make_complete: early-exit / join statements not recognised')
@@ -86,7 +88,7 @@ def run(ctx):
     for already, req in itertools.product(subsets, subsets):
         if already == 0:
             continue        # branch is only entered when something was parsed before
-        env = {'self._parser_classes': already, 'parser_classes': req}
+        env = {'self._parser_classes': already, pcn: req}
         rows += 1
         if bool(_ev(inner[0].test, env)) != ((req | already) == already):
             bad_exit += 1
@@ -105,22 +107,23 @@ def run(ctx):
         ctx.violation('R1', 'ProgramUnit.make_complete:order', mc.where, 'join is computed before the early-exit test')
     fs = [c for c in ast.walk(mc.node) if isinstance(c, ast.Call) and X.dotted_attr(c.func) == 'self.from_source']
     kw = {k.arg: ast.unparse(k.value) for k in fs[0].keywords} if fs else {}
-    (ctx.judge('R1', 'join handed to from_source', facts=kw) if kw.get('parser_classes') == 'parser_classes' and fs[0].lineno > joins[0].lineno else
+    (ctx.judge('R1', 'join handed to from_source', facts=kw) if kw.get('parser_classes') == pcn and fs[0].lineno > joins[0].lineno else
      ctx.violation('R1', 'ProgramUnit.make_complete:from_source', mc.where, f'from_source receives parser_classes={kw.get("parser_classes")!r}'))
     init = m.get_function(PU, 'ProgramUnit.__initialize__')
     (ctx.judge('R1', '__initialize__ stores parser_classes') if 'self._parser_classes = parser_classes' in ast.unparse(init.node) else
      ctx.violation('R1', 'ProgramUnit.__initialize__', init.where, 'the classes used for parsing are not recorded on the unit'))
-    dflt = [n for n in ast.walk(mc.node) if isinstance(n, ast.Assign) and ast.unparse(n.targets[0]) == 'parser_classes' and 'frontend_args.get' in ast.unparse(n.value)]
+    dflt = [n for n in ast.walk(mc.node) if isinstance(n, ast.Assign) and ast.unparse(n.targets[0]) == pcn and 'frontend_args.get' in ast.unparse(n.value)]
     (ctx.judge('R1', 'default request is AllClasses') if dflt and 'RegexParserClass.AllClasses' in ast.unparse(dflt[0].value) else
      ctx.violation('R1', 'ProgramUnit.make_complete:default', mc.where, 'default request is not AllClasses'))
     smc = m.get_function(SF, 'Sourcefile.make_complete')
     st = [n for n in ast.walk(smc.node) if isinstance(n, ast.Assign) and ast.unparse(n.targets[0]) == 'self._parser_classes']
-    jn = [n for n in ast.walk(smc.node) if isinstance(n, ast.Assign) and ast.unparse(n.targets[0]) == 'parser_classes' and '|' in ast.unparse(n.value)]
-    ok = st and jn and ast.unparse(st[0].value) == 'parser_classes'
+    spn = (X.names_assigned_from(smc.node, 'frontend_args.get(', 'parser_classes') or ['parser_classes'])[0]
+    jn = [n for n in ast.walk(smc.node) if isinstance(n, ast.Assign) and ast.unparse(n.targets[0]) == spn and '|' in ast.unparse(n.value)]
+    ok = st and jn and ast.unparse(st[0].value) == spn
     if ok:
         bad = 0
         for already, req in itertools.product(range(1, 8), range(8)):
-            if _ev(jn[0].value, {'self._parser_classes': already, 'parser_classes': req}) != (already | req):
+            if _ev(jn[0].value, {'self._parser_classes': already, spn: req}) != (already | req):
                 bad += 1
         ok = not bad
     (ctx.judge('R1', 'Sourcefile.make_complete stores the join') if ok else
